@@ -86,6 +86,9 @@ class AlgorithmWithAnnealingMixin:
         if not self.annealing_on:
             return
 
+        if not self.algo_parameters["annealing"]["initial_temperature"] >= 1:
+            raise LeaspyAlgoInputError("Your `initial_temperature` should be >= 1")
+
         self.temperature = self.algo_parameters["annealing"]["initial_temperature"]
         self.temperature_inv = 1 / self.temperature
 
